@@ -203,7 +203,7 @@ theorem PInv.step {P : Proto μ} {st : Bytes → Bool} (F : Framer P st) (num : 
             obtain ⟨pre, p1, p2, p3, p4⟩ := h.pre
             rcases tick_toks P F.consuming b.r hst with ⟨h1, _, h3⟩ | ⟨k, h1, h2, h3, h4, h5, h6⟩ |
                 ⟨m, rest, hne, hdes, hlo, h4, h5, h6, h7⟩
-            · have hb : b.s.buf = [] := by rw [hbuf, Toks.frames, h1]; rfl
+            · have hb : b.s.buf = [] := by rw [hbuf, h1]; rfl
               have hc := Sess.poll_nil cfg b.s hl hb
               simp only [rcore, Prod.mk.injEq] at hc
               exact h.frame h3 rfl (by rw [← h3]; exact hrel) hg hc.2.2.1
